@@ -493,7 +493,10 @@ func (c *Cursor) Filter(ctx context.Context, idxStr string, val []interface{}) e
 	if err != nil {
 		return fmt.Errorf("cursor: %w", err)
 	}
-	if !c.desc {
+	if c.t.Tree.Root.Size() == 0 {
+		// a tree that has been emptied has no root node to seek in
+		err = c.cursor.Min(ctx)
+	} else if !c.desc {
 		if c.min != nil {
 			err = c.cursor.Ceil(ctx, c.min)
 		} else {
@@ -559,6 +562,9 @@ func getRow(ctx context.Context, c *VirtualTable, key *Key,
 // makes the insert a key conflict.
 func (c *VirtualTable) hasNumericTwin(ctx context.Context, key *Key) (bool, error) {
 	if key.Type != v1proto.Type_INT && key.Type != v1proto.Type_REAL {
+		return false, nil
+	}
+	if c.Tree.Root.Size() == 0 {
 		return false, nil
 	}
 	cursor, err := c.Tree.Root.Cursor(ctx)
